@@ -1,8 +1,10 @@
 package rules
 
 import (
+	"fmt"
 	"go/types"
 	"sort"
+	"strings"
 
 	"golang.org/x/tools/go/ssa"
 
@@ -173,16 +175,196 @@ func AcceptSites(p *core.Prog, d Driver) []AcceptSite {
 						site.Pruned++
 						continue
 					}
-					pi := PathInfo{Path: pa, Env: env, Atoms: atoms, Fields: map[string]*core.Term{}}
+					fields := map[string]*core.Term{}
 					st := al.Type().Underlying().(*types.Pointer).Elem().Underlying().(*types.Struct)
 					for i := 0; i < st.NumFields(); i++ {
-						pi.Fields[st.Field(i).Name()] = env.LoadField(al, st.Field(i).Name(), site.Ret, st.Field(i).Type())
+						fields[st.Field(i).Name()] = env.LoadField(al, st.Field(i).Name(), site.Ret, st.Field(i).Type())
 					}
-					site.Paths = append(site.Paths, pi)
+					// checks extracted into helpers of the driver's package are opened: one virtual path per
+					// success path of the helper, with the helper's conditions lifted into the matcher's vocabulary
+					for _, variant := range expandHelperAtoms(p, d, atoms, 0) {
+						if !core.Feasible(variant) {
+							continue
+						}
+						site.Paths = append(site.Paths, PathInfo{Path: pa, Env: env, Atoms: variant, Fields: fields})
+						if len(site.Paths) > 4000 {
+							break
+						}
+					}
 				}
+				// an accept site in a helper the matcher tail-calls: compose the helper's paths with the caller's
+				site = composeThroughCallers(p, d, site)
 				out = append(out, site)
 			}
 		}
 	}
 	return out
+}
+
+// composeThroughCallers prepends, to every path of an accept site that lives in a callee of the matcher, the conditions
+// of each caller path that reaches the (tail) call, lifting the callee's conditions and field values into the caller's
+// vocabulary. The outermost frame is the function ReceiveProbe calls, as for sites written inline.
+func composeThroughCallers(p *core.Prog, d Driver, site AcceptSite) AcceptSite {
+	if site.Ret == nil {
+		return site
+	}
+	for depth := 0; depth < 3; depth++ {
+		chains := callChains(p, d.ReceiveProbe, site.Fn)
+		if len(chains) == 0 {
+			return site
+		}
+		if len(chains[0]) <= 1 {
+			return site // called directly by ReceiveProbe: already the outermost frame
+		}
+		// every caller must forward the callee's results unchanged
+		var callers []*ssa.Call
+		seen := map[*ssa.Call]bool{}
+		for _, ch := range chains {
+			cs := ch[len(ch)-1]
+			if !seen[cs] {
+				seen[cs] = true
+				callers = append(callers, cs)
+			}
+		}
+		var composed []PathInfo
+		var outer *ssa.Function
+		ok := true
+		for _, cs := range callers {
+			h := cs.Parent()
+			if outer != nil && outer != h {
+				ok = false // called from several different functions: keep it simple, stay undecided
+			}
+			outer = h
+			// tail position: some return of h forwards both results of cs
+			tail := false
+			for _, b := range h.Blocks {
+				if ret, isRet := b.Instrs[len(b.Instrs)-1].(*ssa.Return); isRet && len(ret.Results) == 2 {
+					e0, ok0 := ret.Results[0].(*ssa.Extract)
+					e1, ok1 := ret.Results[1].(*ssa.Extract)
+					if ok0 && ok1 && e0.Tuple == ssa.Value(cs) && e1.Tuple == ssa.Value(cs) {
+						tail = true
+					}
+				}
+			}
+			if !tail {
+				ok = false
+				continue
+			}
+			paths, _ := core.EnumPaths(h, cs.Block(), 5000)
+			for _, pa := range paths {
+				env := core.NewEnv(p, pa)
+				atoms := env.Atoms()
+				if !core.Feasible(atoms) {
+					continue
+				}
+				for _, inner := range site.Paths {
+					variant := append([]core.Atom{}, atoms...)
+					for _, a := range inner.Atoms {
+						variant = append(variant, core.Atom{Cond: liftWithEnv(env, a.Cond, cs), Sign: a.Sign, Block: cs.Block()})
+					}
+					if !core.Feasible(variant) {
+						continue
+					}
+					fields := map[string]*core.Term{}
+					for k, v := range inner.Fields {
+						fields[k] = liftWithEnv(env, v, cs)
+					}
+					composed = append(composed, PathInfo{Path: pa, Env: env, Atoms: variant, Fields: fields})
+				}
+			}
+		}
+		if !ok || outer == nil {
+			return site
+		}
+		site.Paths = composed
+		site.Fn = outer
+	}
+	return site
+}
+
+// expandHelperAtoms replaces every accepting atom that is a call of a boolean (or error-returning) helper defined in the
+// driver's own package by the conditions of each of the helper's success paths.
+func expandHelperAtoms(p *core.Prog, d Driver, atoms []core.Atom, depth int) [][]core.Atom {
+	if depth > 2 {
+		return [][]core.Atom{atoms}
+	}
+	for i, a := range atoms {
+		n := a.Norm()
+		if !n.Sign {
+			continue
+		}
+		var callT *core.Term
+		errIdx := -1
+		switch {
+		case n.Cond.Op == "call":
+			callT = n.Cond
+		case n.Cond.Op == "binop" && n.Cond.Name == "==" && n.Cond.Args[1].IsConst("nil") && n.Cond.Args[0].Op == "extract" && n.Cond.Args[0].Args[0].Op == "call":
+			callT = n.Cond.Args[0].Args[0]
+			fmt.Sscan(n.Cond.Args[0].Name, &errIdx)
+		}
+		if callT == nil || callT.Val == nil {
+			continue
+		}
+		site, ok := callT.Val.(*ssa.Call)
+		if !ok {
+			continue
+		}
+		f := site.Common().StaticCallee()
+		if f == nil || !core.InModule(f) || core.ShortPkg(core.FuncPkg(f)) != d.Pkg || f.Synthetic != "" {
+			continue
+		}
+		// sent-probe accessors stay opaque (they are the lookups R01.4 wants to see)
+		if len(site.Common().Args) > 0 && site.Common().Args[0] == ssa.Value(site.Parent().Params[0]) && isAccessorName(f.Name()) {
+			continue
+		}
+		res := f.Signature.Results()
+		if errIdx < 0 {
+			if res.Len() != 1 {
+				continue
+			}
+			if b, ok := res.At(0).Type().Underlying().(*types.Basic); !ok || b.Kind() != types.Bool {
+				continue
+			}
+		} else if res.Len() != 1 || errIdx != 0 || !isErrorType(res.At(0).Type()) {
+			continue // value-producing functions stay opaque: their results are keys / fields of the reply
+		}
+		rps, complete := core.ReturnPaths(p, f, 500)
+		if !complete {
+			continue
+		}
+		var out [][]core.Atom
+		for _, rp := range rps {
+			if rp.Ret.Block().Comment == "recover" {
+				continue
+			}
+			var extra []core.Atom
+			if errIdx < 0 {
+				r := rp.Results[0]
+				if r.IsConst("false") {
+					continue
+				}
+				if !r.IsConst("true") {
+					extra = append(extra, core.Atom{Cond: liftThrough(p, r, site), Sign: true, Block: a.Block})
+				}
+			} else if !rp.Results[errIdx].IsConst("nil") {
+				continue
+			}
+			variant := append([]core.Atom{}, atoms[:i]...)
+			for _, ca := range rp.Atoms {
+				variant = append(variant, core.Atom{Cond: liftThrough(p, ca.Cond, site), Sign: ca.Sign, Block: a.Block})
+			}
+			variant = append(variant, extra...)
+			variant = append(variant, atoms[i+1:]...)
+			out = append(out, expandHelperAtoms(p, d, variant, depth+1)...)
+		}
+		if len(out) == 0 {
+			return [][]core.Atom{atoms}
+		}
+		return out
+	}
+	return [][]core.Atom{atoms}
+}
+
+func isAccessorName(n string) bool {
+	return strings.HasPrefix(n, "find") || strings.HasPrefix(n, "get") || strings.HasPrefix(n, "store")
 }
